@@ -528,6 +528,10 @@ impl FW {
     fn cur_side(&self) -> usize {
         if self.dual { self.cur.load(Ordering::SeqCst) } else { 0 }
     }
+    /// upstream index of an outer source: 0, and 100 for the second subscription in dual mode (inner sources are 1, 2, … / 101, 102, …)
+    fn is_outer(&self, i: usize) -> bool {
+        i == 0 || (self.dual && i == 100)
+    }
     fn err(&self, id: u32) -> Err {
         let mut g = lock(&self.errs);
         if let Some((_, e)) = g.iter().find(|(i, _)| *i == id) {
@@ -601,7 +605,7 @@ impl FW {
                     });
                     self.logs(side, "<".into());
                 },
-                Mv::G(i) if i % 100 == 0 => {
+                Mv::G(i) if self.is_outer(i) => {
                     let Some(s) = lock(&self.outer_sink).get(&side).cloned() else {
                         self.log(format!("?nosink:{tok}"));
                         return;
@@ -637,7 +641,7 @@ impl FW {
                     });
                     self.logs(side, "<".into());
                 },
-                Mv::D(i, kind, n) if i % 100 == 0 => {
+                Mv::D(i, kind, n) if self.is_outer(i) => {
                     let Some(s) = lock(&self.outer_sink).get(&side).cloned() else {
                         self.log(format!("?nosink:{tok}"));
                         return;
